@@ -129,6 +129,10 @@ func driveResource(t tuple, a api, variant int, decoy string) (o outcome, resW, 
 	}
 	var wopts []resource.WriteOption
 	switch {
+	case t.M.isNil && (variant/3)%4 == 1:
+		// "more update paths" on a write that has no update mask: there is nothing to add to, the write stays a full one
+		wopts = append(wopts, resource.WithMoreUpdatePaths(decoy))
+		o.how += "; no update mask + WithMoreUpdatePaths(decoy)"
 	case t.M.isNil:
 	case len(t.M.paths) >= 2 && variant%5 == 3 && splittable(t):
 		// the same set of paths given in two options (WithMoreUpdateMask unions and normalises them)
